@@ -1139,7 +1139,10 @@ fn search_differential(seed: u64, budget: usize, want: Option<&str>) -> (usize, 
         if want == Some("C18") {
             for _ in 0..7 {
                 let again = validate_with(&r, cfg.now, cfg.region, cfg.service, opt, &reqs);
-                if again != real {
+                // the property speaks about the outcome, the error KIND and the returned request - not about the message text (which may name
+                // whichever offending header a HashMap happened to yield first)
+                let class = |x: &Result<(String, usize), String>| match x { Ok(v) => format!("ok {} {}", v.0, v.1), Err(e) => e.split(':').next().unwrap_or("").to_string() };
+                if class(&again) != class(&real) {
                     return (n, Some(json!({"fn": "sigv4_validate_request", "case": "differential: the same request validated twice in one process gives different results", "seed": seed, "case_no": n, "speaks_about": ["C18"],
                         "method": r.method, "path": r.path, "query": r.query, "headers": r.headers, "body_hex": hex::encode(&r.body), "first": format!("{:?}", real), "later": format!("{:?}", again)})));
                 }
